@@ -38,9 +38,13 @@ Drift(e) == e.exit = 0 /\ e.kind \in {"executable", "static_library", "shared_li
 
 TraceInit == /\ t \in 1..Len(Traces) /\ l = 1
              /\ d = 0 /\ intdirs = FALSE /\ s1 = 0 /\ s2 = 0 /\ td = <<>>
+\* [ev |-> "twice", what, exit]: a script that names one output path in two steps (of any kind)
+CheckTwice(e) == Need(e.exit # 0, "OutputNamedTwiceIsRejected", e.what)
 TraceNext == /\ l <= Len(Traces[t].events)
-             /\ CheckCase(Traces[t].events[l])
-             /\ (Drift(Traces[t].events[l]) => Say(<<"INFO", "SPEC-DRIFT", Traces[t].id>>))
+             /\ IF "ev" \in DOMAIN Traces[t].events[l]
+                  THEN CheckTwice(Traces[t].events[l])
+                  ELSE /\ CheckCase(Traces[t].events[l])
+                       /\ (Drift(Traces[t].events[l]) => Say(<<"INFO", "SPEC-DRIFT", Traces[t].id>>))
              /\ l' = l + 1 /\ UNCHANGED <<d, intdirs, s1, s2, td, t>>
 TraceSpec == TraceInit /\ [][TraceNext]_tvars
 =============================================================================
